@@ -220,20 +220,23 @@ impl<L: Language> RuleCore<L> {
         return None;
       }
     }
-    let ret = self.rule.match_node_with_env(node, env)?;
-    if !env.to_mut().match_constraints(&self.constraints) {
+    // match into a scratch env: bindings must not be left behind when constraints fail
+    let mut new_env = Cow::Borrowed(env.as_ref());
+    let ret = self.rule.match_node_with_env(node, &mut new_env)?;
+    if !new_env.to_mut().match_constraints(&self.constraints) {
       return None;
     }
     if let Some(trans) = &self.transform {
       let rewriters = self.registration.get_rewriters();
-      let env = env.to_mut();
+      let new_env = new_env.to_mut();
       if let Some(enclosing) = enclosing_env {
-        trans.apply_transform(env, rewriters, enclosing);
+        trans.apply_transform(new_env, rewriters, enclosing);
       } else {
-        let enclosing = env.clone();
-        trans.apply_transform(env, rewriters, &enclosing);
+        let enclosing = new_env.clone();
+        trans.apply_transform(new_env, rewriters, &enclosing);
       };
     }
+    *env = Cow::Owned(new_env.into_owned());
     Some(ret)
   }
 }
